@@ -206,6 +206,11 @@ func exitChecks() int { return verif_ghost_int("exitChecks") }
 //@   ensures[exit-code-check-at-the-loop-header] exitChecks() == old(exitChecks()) + 1
 //@   nosafety keep-pre
 
+// miscOpAt: the (single byte) opcode after the 0xFC prefix at the current position.
+func miscOpAt(c *Compiler) wasm.OpcodeMisc {
+	return wasm.OpcodeMisc(c.wasmFunctionBody[c.loweringState.pc+1])
+}
+
 //@ prop C02
 // The bulk memory / table instructions (0xFC prefix): every bounds check helper is called with
 // zero-extended 32-bit operands (the requires of boundsCheckInMemory / boundsCheckInTable, checked at
@@ -222,6 +227,11 @@ func exitChecks() int { return verif_ghost_int("exitChecks") }
 
 //@ case misc (c *Compiler) lowerCurrentOpcode()
 //@   requires c.ssaBuilder != nil && c.loweringState.pc >= 0 && c.loweringState.pc < len(c.wasmFunctionBody) && c.wasmFunctionBody[c.loweringState.pc] == wasm.OpcodeMiscPrefix
-//@   requires !c.loweringState.unreachable && len(c.loweringState.values) >= 3
-//@   ensures true
+//@   requires !c.loweringState.unreachable && len(c.loweringState.values) >= 3 && c.loweringState.pc+1 < len(c.wasmFunctionBody) && oobChecks() >= 0 && oobChecks() < 1<<40
+//@   ensures[memory.copy-checks-both-regions] old(miscOpAt(c)) == wasm.OpcodeMiscMemoryCopy ==> oobChecks() == old(oobChecks())+2
+//@   ensures[memory.fill-checks-the-region] old(miscOpAt(c)) == wasm.OpcodeMiscMemoryFill ==> oobChecks() == old(oobChecks())+1
+//@   ensures[memory.init-checks-both-regions] old(miscOpAt(c)) == wasm.OpcodeMiscMemoryInit ==> oobChecks() == old(oobChecks())+2
+//@   ensures[table.copy-checks-both-regions] old(miscOpAt(c)) == wasm.OpcodeMiscTableCopy ==> oobChecks() == old(oobChecks())+2
+//@   ensures[table.fill-checks-the-region] old(miscOpAt(c)) == wasm.OpcodeMiscTableFill ==> oobChecks() == old(oobChecks())+1
+//@   ensures[table.init-checks-both-regions] old(miscOpAt(c)) == wasm.OpcodeMiscTableInit ==> oobChecks() == old(oobChecks())+2
 //@   nosafety keep-pre
